@@ -414,6 +414,18 @@ def perturbed_checkpoint(st, rng, ulps=2):
     e = np.finfo(float).eps
     sk = sk * (1.0 + e * rng.integers(-ulps, ulps + 1, sk.shape))
     yk = yk * (1.0 + e * rng.integers(-ulps, ulps + 1, yk.shape))
+    # the restart rebuilds the stored points as x - sum(s) and the stored gradients as jac - sum(y) and differences them again: each
+    # entry of a pair is only known to a few ulp of the *points* (gradients) it is the difference of. For a step at the resolution of x
+    # (objectives in units of 1e-13 whose first, steepest-descent step has length |g|) that is a relative error of 1e-4 and more
+    if sk.size:
+        try:
+            ax = np.abs(np.asarray(st.x, dtype=float)) + np.sum(np.abs(sk), axis=0)
+            ag = np.abs(np.asarray(st.jac, dtype=float)) + np.sum(np.abs(yk), axis=0)
+            if ax.shape == sk.shape[1:] and ag.shape == yk.shape[1:] and np.all(np.isfinite(ax)) and np.all(np.isfinite(ag)):
+                sk = sk + e * rng.integers(-ulps, ulps + 1, sk.shape) * ax
+                yk = yk + e * rng.integers(-ulps, ulps + 1, yk.shape) * ag
+        except (TypeError, ValueError, AttributeError):
+            pass
     ck.hess_inv = LbfgsInvHessProduct(sk, yk)
     return ck
 
